@@ -297,6 +297,28 @@ impl Fold<TextRange> for CountingFold {
     }
 }
 
+/// A folder whose range callback fails at its k-th invocation: the fold must then return that error (a fold that
+/// returns Ok has dropped the failing child, or swallowed the error).
+struct FailingFold {
+    calls: usize,
+    fail_at: usize,
+}
+impl Fold<TextRange> for FailingFold {
+    type TargetU = TextRange;
+    type Error = usize;
+    type UserContext = ();
+    fn will_map_user(&mut self, _user: &TextRange) -> Self::UserContext {}
+    fn map_user(&mut self, user: TextRange, _c: ()) -> Result<TextRange, Self::Error> {
+        let k = self.calls;
+        self.calls += 1;
+        if k == self.fail_at {
+            Err(k)
+        } else {
+            Ok(user)
+        }
+    }
+}
+
 #[derive(Default)]
 struct CountingVisitor {
     seen: Vec<(char, String, u32, u32)>,
@@ -357,6 +379,31 @@ pub fn op_foldvisit(args: &[&str], payload: &[u8]) -> String {
             out.push_str(&format!(",\"fold_ranges\":[{}],\"fold_will\":{}", rs.join(","), will));
         }
         Err(p) => out.push_str(&format!(",\"fold_panic\":{}", p)),
+    }
+    // error injection: the callback fails at its k-th call, for every k (small trees only: quadratic)
+    let m3 = m.clone();
+    let r = guard(move || {
+        let mut f = CountingFold { ranges: Vec::new(), will: 0 };
+        let _ = f.fold_mod(m3.clone());
+        let n = f.ranges.len();
+        let mut swallowed: Vec<usize> = Vec::new();
+        if n <= 400 {
+            for k in 0..n {
+                let mut ff = FailingFold { calls: 0, fail_at: k };
+                match ff.fold_mod(m3.clone()) {
+                    Err(e) if e == k => {}
+                    _ => swallowed.push(k),
+                }
+            }
+        }
+        (n, swallowed)
+    });
+    match r {
+        Ok((n, sw)) => {
+            let ks: Vec<String> = sw.iter().map(|k| k.to_string()).collect();
+            out.push_str(&format!(",\"fail_points\":{},\"fail_swallowed\":[{}]", if n <= 400 { n } else { 0 }, ks.join(",")));
+        }
+        Err(p) => out.push_str(&format!(",\"fail_panic\":{}", p)),
     }
     // visitor
     let m2 = m.clone();
